@@ -691,7 +691,7 @@ func init() {
 			"Not decided: correctness of crypto/hmac and the hashes, and anything about a pipeline written in idioms outside those listed (reported undecided).",
 		trusted:  []string{"crypto/hmac, crypto/sha1|sha256|sha512, encoding/binary.BigEndian.PutUint64"},
 		quick:    []Config{CfgNative, CfgWasm},
-		thorough: []Config{CfgNative, Cfg386, CfgWasm},
+		thorough: []Config{CfgNative, CfgWasm, Cfg386},
 		run:      runC01,
 	})
 }
